@@ -98,6 +98,11 @@ func (m *Model) Facts(f *ssa.Function, spec map[string]bool) (map[*ssa.BasicBloc
 	if r, ok := m.facts[key]; ok {
 		return r.in, r.live
 	}
+	// the facts imported from tested helper results are computed under the same specialisation
+	// (a constant argument handed on to the helper prunes the helper's paths too)
+	prevSpec := m.curSpec
+	m.curSpec = spec
+	defer func() { m.curSpec = prevSpec }()
 	in := map[*ssa.BasicBlock]map[string]Lit{}
 	live := map[*ssa.BasicBlock]bool{}
 	if len(f.Blocks) == 0 {
@@ -813,7 +818,28 @@ func (m *Model) resultPaths(l Lit) ([]map[string]Lit, bool) {
 	if h == nil || !m.isLib(h) || h.Blocks == nil || m.rfOnStack[h] {
 		return nil, false
 	}
-	key := fmt.Sprintf("%p|%d|%s|%v", call, idx, want, neg)
+	// constants (and specialised parameters of the caller) handed to the helper
+	var hspec map[string]bool
+	for i, p := range h.Params {
+		if i >= len(call.Call.Args) {
+			break
+		}
+		a := call.Call.Args[i]
+		if b, isC := constBool(a); isC {
+			if hspec == nil {
+				hspec = map[string]bool{}
+			}
+			hspec[p.Name()] = b
+		} else if ap, isP := a.(*ssa.Parameter); isP && m.curSpec != nil {
+			if b, has := m.curSpec[ap.Name()]; has {
+				if hspec == nil {
+					hspec = map[string]bool{}
+				}
+				hspec[p.Name()] = b
+			}
+		}
+	}
+	key := fmt.Sprintf("%p|%d|%s|%v|%s", call, idx, want, neg, specString(hspec))
 	if m.rfOnStack == nil {
 		m.rfOnStack = map[*ssa.Function]bool{}
 		m.rpMemo = map[string][]map[string]Lit{}
@@ -896,7 +922,42 @@ func (m *Model) resultPaths(l Lit) ([]map[string]Lit, bool) {
 		return append(append([]Lit{}, lits...), m.litOf(v, wantBool, nil))
 	}
 	var paths []map[string]Lit
-	_, live := m.Facts(h, nil)
+	hfacts, live := m.Facts(h, hspec)
+	guardsOf := func(b *ssa.BasicBlock) []Lit {
+		if hspec == nil {
+			return m.Guards(b)
+		}
+		var lits []Lit
+		for _, x := range hfacts[b] {
+			lits = append(lits, x)
+		}
+		sort.Slice(lits, func(i, j int) bool { return lits[i].String() < lits[j].String() })
+		return lits
+	}
+	edgeLitsOf := func(pred *ssa.BasicBlock, si int) []Lit {
+		if hspec == nil {
+			return m.EdgeLits(pred, si)
+		}
+		out := guardsOf(pred)
+		if ifi, ok := pred.Instrs[len(pred.Instrs)-1].(*ssa.If); ok && len(pred.Succs) == 2 && pred.Succs[0] != pred.Succs[1] {
+			out = append(out, m.litOf(ifi.Cond, si == 0, ifi))
+		}
+		return out
+	}
+	specDead := func(pred *ssa.BasicBlock, si int) bool {
+		if hspec == nil {
+			return false
+		}
+		if ifi, ok := pred.Instrs[len(pred.Instrs)-1].(*ssa.If); ok && len(pred.Succs) == 2 {
+			l := m.litOf(ifi.Cond, si == 0, ifi)
+			if l.S.Op == "param" {
+				if val, has := hspec[strings.TrimPrefix(l.S.Name, "param:")]; has && val != l.Truth {
+					return true
+				}
+			}
+		}
+		return false
+	}
 	for _, b := range h.Blocks {
 		if !live[b] || b == h.Recover {
 			continue
@@ -920,10 +981,10 @@ func (m *Model) resultPaths(l Lit) ([]map[string]Lit, bool) {
 						si = j
 					}
 				}
-				if deadEdge(pred, si) || !live[pred] {
+				if deadEdge(pred, si) || !live[pred] || specDead(pred, si) {
 					continue
 				}
-				paths = append(paths, export(withValue(m.EdgeLits(pred, si), e), passesDemote(pred) || hasDemote(b)))
+				paths = append(paths, export(withValue(edgeLitsOf(pred, si), e), passesDemote(pred) || hasDemote(b)))
 			}
 			continue
 		}
@@ -935,14 +996,14 @@ func (m *Model) resultPaths(l Lit) ([]map[string]Lit, bool) {
 			// the condition of each
 			for _, pred := range b.Preds {
 				for si, sx := range pred.Succs {
-					if sx == b && !deadEdge(pred, si) && live[pred] {
-						paths = append(paths, export(withValue(m.EdgeLits(pred, si), v), passesDemote(pred)))
+					if sx == b && !deadEdge(pred, si) && live[pred] && !specDead(pred, si) {
+						paths = append(paths, export(withValue(edgeLitsOf(pred, si), v), passesDemote(pred)))
 					}
 				}
 			}
 			continue
 		}
-		paths = append(paths, export(withValue(m.Guards(b), v), passesDemote(b)))
+		paths = append(paths, export(withValue(guardsOf(b), v), passesDemote(b)))
 	}
 	m.rpMemo[key] = paths
 	return paths, true
@@ -1604,4 +1665,46 @@ func (m *Model) knownNonNil(v ssa.Value, b *ssa.BasicBlock) bool {
 		}
 	}
 	return false
+}
+
+
+// controlCondsDeep is controlConds looking through tests of helper results: where a deciding
+// condition tests the result of a library function called from that one place (a phase of the
+// function's body that reports through its results), the conditions that decide which value the
+// helper returns are deciding conditions too (with the helper's parameters read as the arguments).
+func (m *Model) controlCondsDeep(at ssa.Instruction, depth int) []Lit {
+	out := m.controlConds(at)
+	if depth > 2 {
+		return out
+	}
+	seen := map[*ssa.Call]bool{}
+	for _, l := range append(append([]Lit{}, out...), m.GuardsAt(at)...) {
+		call, _, _, _, ok := m.resultTest(l)
+		if !ok || seen[call] {
+			continue
+		}
+		seen[call] = true
+		h := call.Call.StaticCallee()
+		if h == nil || !m.isLib(h) || h.Blocks == nil || len(m.callers[h]) != 1 {
+			continue
+		}
+		sub := map[string]*Sym{}
+		for j, p := range h.Params {
+			if j < len(call.Call.Args) {
+				sub["param:"+p.Name()] = m.Sym.Of(call.Call.Args[j])
+			}
+		}
+		for _, b := range liveBlocks(h) {
+			ret, isRet := b.Instrs[len(b.Instrs)-1].(*ssa.Return)
+			if !isRet || b == h.Recover {
+				continue
+			}
+			for _, hl := range m.controlCondsDeep(ret, depth+1) {
+				hl.S = substSym(hl.S, sub)
+				hl.Derived = true
+				out = append(out, hl)
+			}
+		}
+	}
+	return out
 }
